@@ -91,17 +91,22 @@ def J(x):
 
 
 # ------------------------------------------------------------------------ G: ValueSets histories
+def _item_arg(it):
+    return it[1] if it[0] == "v" else (it[1], it[2])
+
+
 def vs_concretise(hist):
-    """Replay a history of abstract operations on two real objects; returns (A, B)."""
+    """Replay a history of abstract operations on real objects named by two variables; returns (A, B).
+    The variables hold references exactly as in the spec: add_* mutate the named object in place, union / any /
+    new rebind the variable to whatever the library returns."""
     from vc2_conformance.constraint_table import ValueSet, AnyValue
 
     regs = {"A": None, "B": None}
     for o in hist:
         r = o["reg"]
-        other = "B" if r == "A" else "A"
         op = o["op"]
         if regs[r] is None and op in ("add_value", "add_range") and (len(hist) + o.get("v", o.get("lo", 0))) % 2 == 0:
-            # first operation on the object: sometimes through the constructor
+            # first operation on the initial (empty) object: sometimes through the constructor
             regs[r] = ValueSet(o["v"]) if op == "add_value" else ValueSet((o["lo"], o["hi"]))
             continue
         if regs[r] is None:
@@ -111,11 +116,14 @@ def vs_concretise(hist):
         elif op == "add_range":
             regs[r].add_range(o["lo"], o["hi"])
         elif op == "union":
-            if regs[other] is None:
-                regs[other] = ValueSet()
-            regs[r] = regs[r] + regs[other]
+            for x in (o["l"], o["r"]):
+                if regs[x] is None:
+                    regs[x] = ValueSet()
+            regs[r] = regs[o["l"]] + regs[o["r"]]
         elif op == "any":
             regs[r] = AnyValue()
+        elif op == "new":
+            regs[r] = ValueSet(*[_item_arg(it) for it in o["items"]])
         else:
             raise RuntimeError("unknown abstract operation %r" % (o,))
     for r in REGS:
@@ -135,6 +143,9 @@ def vs_observe(a, b, lo, hi):
         "dba": bool(b.is_disjoint(a)),
         "anya": isinstance(a, AnyValue),
         "anyb": isinstance(b, AnyValue),
+        # object identity: the very same object, or distinct objects sharing a mutable part
+        "same": a is b,
+        "shared_parts": a is not b and any(getattr(a, f, None) is not None and getattr(a, f, None) is getattr(b, f, None) for f in ("_values", "_ranges")),
     }
     for nm, x in (("a", a), ("b", b)):
         vals = getattr(x, "_values", None)
@@ -176,6 +187,10 @@ def vs_exec(case):
         )
     # spec-only predictions (R1: never an alarm)
     if got["anya"] != obs["anya"] or got["anyb"] != obs["anyb"]:
+        dis += 1
+    if got["same"] != obs["same"] or got["shared_parts"]:
+        # the spec says every union / wildcard / constructor result is a fresh object; sharing as such is not
+        # the property (it becomes an alarm when a later addition shows up in the wrong set)
         dis += 1
     if got["va"] != sorted(obs["va"]) or got["vb"] != sorted(obs["vb"]) or got["ra"] != sorted(list(g) for g in obs["ra"]) or got["rb"] != sorted(list(g) for g in obs["rb"]):
         dis += 1
@@ -237,6 +252,8 @@ def tab_exec(case):
     dis = 0
     if not checks:
         return {"violations": [], "disagreements": 0, "checked": False}
+    if hist[-1]["op"] == "touch":
+        return tab_touch_exec(hist, obs, cols, checks)
     saved = assertions.LEVEL_CONSTRAINTS
     try:
         table = tab_concretise(cols)
@@ -289,6 +306,51 @@ def tab_exec(case):
     return {"violations": viol, "disagreements": dis, "checked": True, "judged": bool(judged)}
 
 
+def tab_touch_exec(hist, obs, cols, checks):
+    """Last step = the caller adds a value to the set handed out by the last allowed_values_for query: the spec
+    says the addition shows in that set and every cell of the table still holds what it listed."""
+    from vc2_conformance import constraint_table as ct
+    from vc2_conformance.decoder import assertions
+    from vc2_conformance.decoder.exceptions import ValueNotAllowedInLevel
+    from vc2_conformance.pseudocode.state import State
+
+    t = hist[-1]
+    saved = assertions.LEVEL_CONSTRAINTS
+    try:
+        table = tab_concretise(cols)
+        assertions.LEVEL_CONSTRAINTS = table
+        state = State()
+        for o in checks[:-1]:
+            try:
+                assertions.assert_level_constraint(state, o["k"], o["v"])
+            except ValueNotAllowedInLevel:
+                pass
+        chosen = dict(state.get("_level_constrained_values", {}))
+        handed = ct.allowed_values_for(table, t["k"], dict(chosen))
+        handed.add_value(t["w"])
+        got_tab = project_table(table, -1, 3)
+        got_ret = sorted(u for u in range(-1, 4) if u in handed)
+        got_any = isinstance(handed, ct.AnyValue)
+        same_obj = any(handed is c for col in table for c in col.values())
+    except Exception as e:  # noqa
+        return {"violations": [("C17|table-exception|%s" % common.exc_signature(e), "history %s raised %r" % (hist, e))], "disagreements": 0, "checked": True}
+    finally:
+        assertions.LEVEL_CONSTRAINTS = saved
+    viol = []
+    dis = 0
+    if chosen != (t["chosen"] or {}):
+        dis += 1
+    want_tab = [dict((k, {"any": c["any"], "m": sorted(c["m"])}) for k, c in (col or {}).items()) for col in obs["tab"]]
+    desc = "table %s, chosen %s: allowed_values_for(key %s) handed out a set, the caller added %s to it" % ([dict((kk, str(vv)) for kk, vv in c.items()) for c in tab_concretise(cols)], chosen, t["k"], t["w"])
+    if got_tab != want_tab:
+        viol.append(("C17|valueset-contains|table-cell-after-result-add", "%s; the table's cells now contain %s, they list %s" % (desc, got_tab, want_tab)))
+    if got_ret != sorted(obs["ret"]):
+        viol.append(("C17|valueset-contains|allowed-values-result-add", "%s; the set now contains %s within -1..3, allowed values plus the added one are %s" % (desc, got_ret, sorted(obs["ret"]))))
+    if got_any != obs["retany"] or same_obj:
+        dis += 1
+    return {"violations": viol, "disagreements": dis, "checked": True, "judged": False, "touch": True}
+
+
 def tab_block(block):
     st = tlaval.parse_state_block(block)
     if not st["hist"]:
@@ -334,6 +396,8 @@ def render_rows(rows):
     w = csv.writer(buf, lineterminator="\n")
     for ri, r in enumerate(rows):
         salt = zlib.crc32(repr((ri, J(r))).encode()) & 0xFFFF
+        if r["kind"] == "touch":
+            continue
         if r["kind"] == "data":
             w.writerow([r["key"]] + [render_cell(c, salt + 7 * i) for i, c in enumerate(r["cells"])])
         elif r["kind"] == "comment":
@@ -378,15 +442,23 @@ def csv_exec(case):
 
     rows, obs = case["hist"], case["obs"]
     text = render_rows(rows)
+    touch = rows[-1] if rows and rows[-1]["kind"] == "touch" else None
     try:
         table = read_constraints_from_csv(tmp_csv(text))
+        if touch is not None:
+            # the caller adds a value to one cell of the table it was handed
+            table[touch["i"] - 1][touch["key"]].add_value(touch["w"])
         got = project_table(table, -1, 4)
     except Exception as e:  # noqa
         return {"violations": [("C17|csv-exception|%s" % common.exc_signature(e), "CSV %r raised %r" % (text, e))], "disagreements": 0}
     want = [dict((k, {"any": c["any"], "m": sorted(c["m"])}) for k, c in (col or {}).items()) for col in obs]
     if got != want:
+        if touch is not None:
+            return {"violations": [("C17|csv-cells|touch", "CSV %r was read, then %d was added to the cell of key %s in column %d: the table now holds %s, the file plus that addition denote %s" % (text, touch["w"], touch["key"], touch["i"], got, want))], "disagreements": 0}
         return {"violations": [("C17|csv-cells|" + (rows[-1]["kind"] if rows else "none"), "CSV %r read as %s, written cells denote %s" % (text, got, want))], "disagreements": 0}
-    return {"violations": [], "disagreements": 0}
+    cells = [c for col in table for c in col.values()]
+    shared = sum(1 for i, c in enumerate(cells) for d in cells[:i] if c is d and not type(c).__name__ == "AnyValue")
+    return {"violations": [], "disagreements": 1 if shared else 0}
 
 
 def csv_block(block):
@@ -704,9 +776,38 @@ def selftest_binding(vs_cases):
     return hit
 
 
+def selftest_sharing(vs_cases):
+    """A union that hands out its LEFT operand when the right one is empty (no new object) must be flagged by the
+    replay through a later addition showing up in the wrong set."""
+    from vc2_conformance import constraint_table as ct
+
+    orig = ct.ValueSet.__add__
+
+    def sharing(self, other):
+        if not isinstance(other, ct.AnyValue) and not other._values and not other._ranges:
+            return self
+        return orig(self, other)
+
+    ct.ValueSet.__add__ = sharing
+    try:
+        hit = 0
+        for c in vs_cases:
+            if any(s.startswith("C17|valueset-contains") for s, _ in vs_exec(c)["violations"]):
+                hit += 1
+    finally:
+        ct.ValueSet.__add__ = orig
+    return hit
+
+
+SHARE_IMPLS = ("reuse_right", "reuse_left", "reuse_superset")
+
+
 def run(ctx):
     n = ctx.pick(5, 6)
-    vs_consts = {"N": n, "MaxLen": 3}
+    vs_consts = {"N": n, "MaxLen": 3, "UnionImpl": '"fresh"', "Ctor": "FALSE"}
+    # second box: smaller universe, longer histories -- both operands of a union are built by operations, the
+    # union result (or an operand) is then added to: the object-identity dimension needs depth, not width
+    vd_consts = ctx.pick({"N": 3, "MaxLen": 4, "UnionImpl": '"fresh"', "Ctor": "FALSE"}, {"N": 3, "MaxLen": 4, "UnionImpl": '"fresh"', "Ctor": "TRUE"})
     tb_consts = ctx.pick({"Keys": '{"k1", "k2"}', "MaxCols": 2, "MaxLen": 4}, {"Keys": '{"k1", "k2"}', "MaxCols": 2, "MaxLen": 5})
     cs1 = ctx.pick({"Items": "ItemsMid"}, {"Items": "ItemsRich"})
     cs2 = ctx.pick({"MaxCols": 2, "MaxLen": 2}, {"MaxCols": 3, "MaxLen": 2})
@@ -716,32 +817,42 @@ def run(ctx):
         {"module": "ConstraintTable", "cfg": cfg_text("ConstraintTable.cfg", **tb_consts), "kwargs": D},
         {"module": "ConstraintCsv", "cfg": cfg_text("ConstraintCsvCells.cfg", **cs1), "kwargs": D},
         {"module": "ConstraintCsv", "cfg": cfg_text("ConstraintCsvRows.cfg", **cs2), "kwargs": D},
+        {"module": "ValueSets", "cfg": cfg_text("ValueSets.cfg", **vd_consts), "kwargs": D},
     ]
-    c2 = {"N": 4, "MaxLen": 4}
+    # negative models: a union that hands out one of its operands must violate the property in the spec itself
+    for impl in SHARE_IMPLS:
+        specs.append({"module": "ValueSets", "cfg": cfg_text("ValueSetsShare.cfg", UnionImpl='"%s"' % impl), "kwargs": {"workers": 1, "allow_invariant_violation": True}})
+    nbase = len(specs)
+    c2 = {"N": 4, "MaxLen": 4, "UnionImpl": '"fresh"', "Ctor": "FALSE"}
     c3 = {"Keys": '{"k1", "k2", "k3"}', "MaxCols": 1, "MaxLen": 4, "CellVals": "{0, 1}"}
     sim_n = 9
     if not ctx.quick:
         specs += [
             {"module": "ValueSets", "cfg": cfg_text("ValueSets.cfg", **c2), "kwargs": D},
             {"module": "ConstraintTable", "cfg": cfg_text("ConstraintTable.cfg", **c3), "kwargs": D},
-            {"module": "ValueSets", "cfg": cfg_text("ValueSets.cfg", N=sim_n, MaxLen=10), "kwargs": {"simulate": 3000, "depth": 11, "seed": ctx.seed, "workers": 1}},
+            {"module": "ValueSets", "cfg": cfg_text("ValueSets.cfg", N=sim_n, MaxLen=10, Ctor="TRUE"), "kwargs": {"simulate": 3000, "depth": 11, "seed": ctx.seed, "workers": 1}},
         ]
     R = tlc_many(specs)
     VS_ACT = ["AddValue", "AddRange", "Union", "MakeAny"]
     res_vs, out_vs = g_finish(ctx, R[0], vs_consts, "ValueSets exhaustive", vs_block, lambda b: (b, n), VS_ACT)
-    res_tb, out_tb = g_finish(ctx, R[1], tb_consts, "ConstraintTable exhaustive", tab_block, lambda b: b, ["AddColumn", "Check"])
-    res_c1, out_c1 = g_finish(ctx, R[2], cs1, "ConstraintCsv exhaustive (cells)", csv_block, lambda b: b, ["Read"])
-    res_c2, out_c2 = g_finish(ctx, R[3], cs2, "ConstraintCsv exhaustive (rows)", csv_block, lambda b: b, ["Read"])
+    res_tb, out_tb = g_finish(ctx, R[1], tb_consts, "ConstraintTable exhaustive", tab_block, lambda b: b, ["AddColumn", "Check", "Touch"])
+    res_c1, out_c1 = g_finish(ctx, R[2], cs1, "ConstraintCsv exhaustive (cells)", csv_block, lambda b: b, ["Read", "Touch"])
+    res_c2, out_c2 = g_finish(ctx, R[3], cs2, "ConstraintCsv exhaustive (rows)", csv_block, lambda b: b, ["Read", "Touch"])
     kinds = set(r["sample"]["hist"][-1]["kind"] for r in out_c1 + out_c2)
-    guard(ctx, kinds == {"data", "comment", "blank"}, "vacuity: CSV row kinds replayed: %r" % (kinds,))
-    extra_vs = []
+    guard(ctx, kinds == {"data", "comment", "blank", "touch"}, "vacuity: CSV row kinds replayed: %r" % (kinds,))
+    _, extra_vs = g_finish(ctx, R[4], vd_consts, "ValueSets exhaustive (object identity: longer histories)", vs_block, lambda b: (b, vd_consts["N"]), VS_ACT + (["New"] if vd_consts["Ctor"] == "TRUE" else []))
+    spec_selftest = {}
+    for impl, r in zip(SHARE_IMPLS, R[5 : 5 + len(SHARE_IMPLS)]):
+        if r.invariant_violated != "ContainsExactlyUnion":
+            raise RuntimeError("spec self-test: ValueSets with UnionImpl=%s (a union handing out an operand) does not violate ContainsExactlyUnion (%r)" % (impl, r.invariant_violated))
+        spec_selftest[impl] = "ContainsExactlyUnion violated after %d states" % r.generated
     if not ctx.quick:
-        _, o2 = g_finish(ctx, R[4], c2, "ValueSets exhaustive (deeper)", vs_block, lambda b: (b, 4), VS_ACT)
+        _, o2 = g_finish(ctx, R[nbase], c2, "ValueSets exhaustive (deeper)", vs_block, lambda b: (b, 4), VS_ACT)
         extra_vs += o2
-        _, o3 = g_finish(ctx, R[5], c3, "ConstraintTable exhaustive (3 keys)", tab_block, lambda b: b, ["AddColumn", "Check"])
+        _, o3 = g_finish(ctx, R[nbase + 1], c3, "ConstraintTable exhaustive (3 keys)", tab_block, lambda b: b, ["AddColumn", "Check", "Touch"])
         out_tb += o3
         # random walks of the same spec over a larger universe; every step of every walk is compared
-        walks = [(p, sim_n) for p in sorted(glob.glob(os.path.join(R[6].sim_dir, "tr*")))]
+        walks = [(p, sim_n) for p in sorted(glob.glob(os.path.join(R[nbase + 2].sim_dir, "tr*")))]
         if not walks:
             raise RuntimeError("TLC -simulate wrote no walks")
         extra_vs += [r for rs in common.pmap(vs_walk, walks) for r in rs]
@@ -751,6 +862,8 @@ def run(ctx):
 
     hit = selftest_binding([r["sample"] for r in out_vs])
     guard(ctx, hit > 0, "binding self-test failed: an is_disjoint that ignores the other set's ranges was not detected")
+    hit_share = selftest_sharing([r["sample"] for r in out_vs if r["sample"]["hist"][-1]["op"] in ("add_value", "add_range") and any(o["op"] == "union" for o in r["sample"]["hist"])])
+    guard(ctx, hit_share > 0, "binding self-test failed: a union returning its left operand itself was not detected by later additions")
     njudged = sum(1 for r in out_tb if r.get("judged"))
     guard(ctx, njudged > 0 and any(r["sample"]["obs"]["acc"] for r in out_tb if r.get("judged")) and not all(r["sample"]["obs"]["acc"] for r in out_tb if r.get("judged")), "vacuity: the table theorems were never exercised with both outcomes")
     allg = out_vs + extra_vs + out_tb + out_c1 + out_c2
